@@ -56,12 +56,27 @@ Theorem C19_copies_independent : forall s o, a_only o = true -> ob (vstep s o) =
 Proof. exact copies_independent. Qed.
 Print Assumptions C19_copies_independent.
 
-(* maybe<T> / either<T,..> for a non-trivial T: assigning a value into an empty object runs T::operator= on raw
-   storage, and no destructor of T ever runs *)
-Theorem C19_nontrivial_maybe_refuted : forall v st,
-  raw_assign (snd (n_set n_nothing st v)) = S (raw_assign st)
-  /\ destroyed (n_destroy (fst (n_set n_nothing st v)) (snd (n_set n_nothing st v))) = destroyed st.
-Proof. intros. split; reflexivity. Qed.
+(* maybe<T> / either<T,long> for a non-trivial T: after any history the observable state (engaged / active alternative
+   and value) is that of std::optional / std::variant ... *)
+Theorem C19_nontrivial_maybe_either_contents : forall mops eops,
+  mobs2 (mrun mops) = mspec_run mops /\ eobs2 (enrun eops) = erun eops.
+Proof. intros. split; [apply mrun_obs | apply enrun_obs]. Qed.
+Print Assumptions C19_nontrivial_maybe_either_contents.
+
+(* ... but the payload's lifetime is not respected: assigning a value into an empty maybe<T> runs T::operator= on raw
+   storage; an engaged maybe<T> that is destroyed leaves its T alive (no destructor ever runs); either's copy
+   constructor assigns into the raw member of the new object.  (Exact event counts of the code as it is; the
+   correspondence requires the implementation to show exactly these counts.) *)
+Theorem C19_nontrivial_maybe_refuted :
+  (exists ops, n_asgraw (snd (mrun ops)) > 0)
+  /\ (exists ops, n_live (snd (mrun ops)) > 0)
+  /\ (exists ops, n_asgraw (snd (enrun ops)) > 0 /\ n_live (snd (enrun ops)) > 0).
+Proof.
+  split; [|split].
+  - exists [MSet 5%Z]. vm_compute. repeat constructor.
+  - exists [MCtorVal 5%Z]. vm_compute. repeat constructor.
+  - exists [ECopyCtor]. vm_compute. split; repeat constructor.
+Qed.
 Print Assumptions C19_nontrivial_maybe_refuted.
 
 (* ---------- non-vacuity ---------- *)
@@ -89,4 +104,10 @@ Example C19_nonvacuous_4 :
   sm_contents (fst (smrun 4 ops)) = [11%Z; 0%Z; 0%Z; 0%Z; 0%Z; 0%Z] /\ sm_is_static (fst (smrun 4 ops)) = false /\
   sm_is_static (fst (smrun 4 [Push 11%Z; Push 22%Z; Push 33%Z; Resize 1; Resize 4])) = true /\
   sm_contents (fst (smrun 4 [Ctor 4; Write 3 7%Z; Push 9%Z; CopyCtor; Flip])) = [0%Z; 0%Z; 0%Z; 7%Z; 9%Z].
+Proof. vm_compute. repeat split. Qed.
+(* the counts of two histories as the pinned code produces them (checked against the C++ on every run) *)
+Example C19_nonvacuous_5 :
+  snd (mrun [MSet 11%Z; MCopyCtor; MFlip; MAssignAB]) = mkC 2 1 2 2 /\
+  snd (mrun [MCtorVal 11%Z; MCopyCtor]) = mkC 3 1 0 0 /\
+  snd (enrun [ELeftSet 5%Z; ECopyCtor; EFlip; ERightSet 7%Z; EAssignBA; ESelfAssign; EAssignAB]) = mkC 4 1 5 1.
 Proof. vm_compute. repeat split. Qed.
